@@ -489,6 +489,52 @@ func TestVerifC13Hist(t *testing.T) {
 		passes = []pass{{vkC13Cfg{2, 8, true}, full, 5}, {vkC13Cfg{2, 8, false}, full, 4}, {vkC13Cfg{2, 3, true}, core, 7}, {vkC13Cfg{2, 8, true}, core, 8},
 			{vkC13Cfg{5, 300, true}, core, 6}, {vkC13Cfg{1, 1, true}, core, 6}}
 	}
+	// outage family: ONE key failing again and again, every time right after its back-off has run out, for 80 generations
+	// (question failure through the ask path, and zone failure through RecordZoneFailure) — far beyond the streak at which
+	// the window reaches its maximum. After every failure the implementation's own entry must hold a window inside
+	// [configured minimum, configured maximum (<= 5 min)] that is not shorter than the one before it: a window that
+	// collapses (or is born expired) stops suppressing the retries of a zone that is still down.
+	if c.Mine(0) {
+		for _, oc := range []vkC13Cfg{{5, 300, true}, {1, 300, true}, {2, 8, true}, {1, 1, true}} {
+			for _, kind := range []string{"question", "zone"} {
+				w := vkNewC13World(time.Duration(oc.Min)*time.Second, time.Duration(oc.Max)*time.Second, true)
+				prev := time.Duration(0)
+				for gen := 1; gen <= 80; gen++ {
+					if kind == "question" {
+						if v, _ := w.apply(vkC13Ev{Kind: "ask", Q: 0, Up: "fail"}); v != "" {
+							c.Violation("hist:outage:"+vkC13Class(v), fmt.Sprintf("cfg %+v, %s failure, generation %d: %s", oc, kind, gen, v), nil)
+							break
+						}
+					} else {
+						w.apply(vkC13Ev{Kind: "zonefail", Zone: "z.t."})
+					}
+					c.Add("evaluations", 1)
+					now := vtime.Now()
+					var left time.Duration
+					found := false
+					w.c.failure.entries.ForEach(func(_ uint64, v any) bool {
+						e := v.(*failureEntry)
+						if (kind == "zone") == (e.kind == FailureKindZone) {
+							left, found = e.retryAfter.Sub(now), true
+						}
+						return true
+					})
+					lo, hi := time.Duration(oc.Min)*time.Second, time.Duration(oc.Max)*time.Second
+					if hi > 5*time.Minute {
+						hi = 5 * time.Minute
+					}
+					if !found || left < lo-50*time.Millisecond || left > hi+50*time.Millisecond || left < prev-50*time.Millisecond {
+						c.Violation("hist:outage:backoff-outside-envelope", fmt.Sprintf("cfg %+v, %s failure: after %d consecutive failures (each right after the previous back-off ran out) the recorded window is %v (entry found=%v), outside [%v, %v] or shorter than the previous one (%v)", oc, kind, gen, left, found, lo, hi, prev), nil)
+						break
+					}
+					prev = left
+					c.Outcome(fmt.Sprintf("outage:%s:window=%v", kind, left.Round(time.Second)))
+					vtime.Advance(left + time.Second)
+				}
+				w.stop()
+			}
+		}
+	}
 	for _, ps := range passes {
 		cfg, evs, maxDepth := ps.cfg, ps.evs, ps.depth
 		seen := map[string]bool{}
